@@ -7,6 +7,7 @@ package c01
 import (
 	"fmt"
 	"math/big"
+	"strconv"
 	"strings"
 
 	"github.com/invopop/gobl/l10n"
@@ -300,6 +301,19 @@ func errorBound(c *core.Ctx, docs []*calcproto.Doc, res []Result) {
 		c.TieBroken("drive:C01/exactq", err.Error(), nil)
 		return
 	}
+	// the document class for which Props/C01 (calc_eq_spec, decided_class_bound)
+	// proves an explicit bound, decided by the driver (Spec/C01.lean inDocC,
+	// docWeight): on those documents the real output is also held to the
+	// proved bound  half a unit + weight/200 units.
+	creqs := make([]string, len(reqs))
+	for k, r := range reqs {
+		creqs[k] = "class " + strings.TrimPrefix(r, "exactq ")
+	}
+	cout, err := c.ModelProp("C01", creqs)
+	if err != nil {
+		c.TieBroken("drive:C01/class", err.Error(), nil)
+		return
+	}
 	names := []string{"sum", "discount", "charge", "tax_included", "total", "tax", "total_with_tax", "payable", "advance", "due"}
 	for k, i := range idx {
 		d := docs[i]
@@ -308,6 +322,13 @@ func errorBound(c *core.Ctx, docs []*calcproto.Doc, res []Result) {
 			c.TieBroken("drive:C01/exactq", "unexpected answer "+out[k], Case{d})
 			continue
 		}
+		cf := strings.Fields(cout[k])
+		if len(cf) != 3 || cf[0] != "ok" {
+			c.TieBroken("drive:C01/class", "unexpected answer "+cout[k], Case{d})
+			continue
+		}
+		inClass := cf[1] == "1"
+		weight, _ := strconv.ParseInt(cf[2], 10, 64)
 		inv := d.Invoice()
 		if inv.Calculate() != nil || inv.Totals == nil {
 			continue
@@ -320,6 +341,14 @@ func errorBound(c *core.Ctx, docs []*calcproto.Doc, res []Result) {
 		unit := new(big.Rat).SetFrac(big.NewInt(1), new(big.Int).Exp(big.NewInt(10), big.NewInt(int64(sub)), nil))
 		got := []*num.Amount{&t.Sum, t.Discount, t.Charge, t.TaxIncluded, &t.Total, &t.Tax, &t.TotalWithTax, &t.Payable, t.Advances, t.Due}
 		c.Count("error-bound:documents", 1)
+		var proved *big.Rat
+		if inClass {
+			c.Count("error-bound:in-proved-class", 1)
+			if weight < 100 {
+				c.Count("error-bound:in-proved-class-weight<100", 1)
+			}
+			proved = new(big.Rat).Mul(unit, new(big.Rat).Add(big.NewRat(1, 2), big.NewRat(weight, 200)))
+		}
 		worst := new(big.Rat)
 		for j, a := range got {
 			if a == nil {
@@ -334,6 +363,9 @@ func errorBound(c *core.Ctx, docs []*calcproto.Doc, res []Result) {
 			diff.Abs(diff)
 			if diff.Cmp(worst) > 0 {
 				worst.Set(diff)
+			}
+			if proved != nil && diff.Cmp(proved) > 0 {
+				c.TieBroken("theorem:C01/decided_class_bound", fmt.Sprintf("totals.%s = %s is further from the unrounded exact value %s than the bound proved for the document class (weight %d)", names[j], a.String(), want.FloatString(int(sub)+6), weight), Case{d})
 			}
 			if diff.Cmp(unit) >= 0 {
 				cls := ""
